@@ -285,7 +285,18 @@ fn mint_token(secret: &str, claims: &Value) -> String {
 /// one HTTP/1.1 request on a connection of its own; returns (status, body)
 async fn http(port: u16, method: &str, path: &str, token: Option<&str>, body: Option<String>) -> Option<(u16, String)> {
     use tokio::io::AsyncReadExt;
-    let mut s = TcpStream::connect(("127.0.0.1", port)).await.ok()?;
+    // (a refused connection is retried: nothing has been sent yet)
+    let mut conn = None;
+    for _ in 0..5 {
+        match TcpStream::connect(("127.0.0.1", port)).await {
+            Ok(c) => {
+                conn = Some(c);
+                break;
+            }
+            Err(_) => tokio::time::sleep(Duration::from_millis(40)).await,
+        }
+    }
+    let mut s = conn?;
     let mut req = format!("{method} {path} HTTP/1.1\r\nHost: localhost\r\nConnection: close\r\nAccept: application/json\r\n");
     if let Some(t) = token {
         req += &format!("Authorization: Bearer {t}\r\n");
